@@ -486,4 +486,8 @@ def run(c, prog):
     rule_rule(c, prog)
     rule_copy(c, prog)
     rule_src(c, prog)
+    # cloning walks `children` with a work queue and no visited set: it yields a finite isomorphic copy only while the
+    # parent/children relation is a forest, which the C09 operations it is interleaved with have to preserve
+    from . import C09 as _C09
+    _C09.rule_acyc(core.Alias(c, "C11"), prog)
     c.not_decided += ["isomorphism for every topology (a run)", "Content::Object references inside properties (not Variant::Ref) are outside the rule's statement"]
